@@ -44,7 +44,7 @@ func (r *Inflater) Message(payload []byte) ([]byte, error) {
 // Deflater is a permessage-deflate sender.
 type Deflater struct {
 	NoContextTakeover bool
-	Level             int // 0 = flate.BestSpeed
+	Level             int // 0 = flate.BestCompression (BestSpeed never references history for inputs under 128 bytes)
 	w                 *flate.Writer
 	buf               bytes.Buffer
 }
@@ -53,7 +53,7 @@ func (d *Deflater) writer() *flate.Writer {
 	if d.w == nil || d.NoContextTakeover {
 		lvl := d.Level
 		if lvl == 0 {
-			lvl = flate.BestSpeed
+			lvl = flate.BestCompression
 		}
 		d.w, _ = flate.NewWriter(&d.buf, lvl)
 	}
@@ -82,7 +82,7 @@ func (d *Deflater) MessageBFinal(msg []byte) []byte {
 	d.buf.Reset()
 	lvl := d.Level
 	if lvl == 0 {
-		lvl = flate.BestSpeed
+		lvl = flate.BestCompression
 	}
 	w, _ := flate.NewWriter(&d.buf, lvl)
 	w.Write(msg)
